@@ -162,8 +162,11 @@ def tree_hash(root):
 def prepare(slot, harnesses):
     """rsync /repo working tree into the slot, inject the harness modules that are needed."""
     os.makedirs(slot.src, exist_ok=True)
+    # content-based sync WITHOUT preserving mtimes: a file whose content changed gets a fresh mtime, so cargo always
+    # rebuilds it - also when the change in /repo carries an OLDER mtime than the previous build (restored backup, reverted
+    # patch with preserved times), which an mtime-preserving copy would let cargo treat as up to date.
     subprocess.check_call(
-        ["rsync", "-a", "--delete", "--exclude", "/target", "--exclude", ".git", "--exclude", "/.cargo",
+        ["rsync", "-rlpc", "--delete", "--exclude", "/target", "--exclude", ".git", "--exclude", "/.cargo",
          "--exclude", "/guard/src/verif_harness", REPO + "/", slot.src + "/"])
     os.makedirs(os.path.join(slot.src, ".cargo"), exist_ok=True)
     with open(os.path.join(slot.src, ".cargo", "config.toml"), "w") as f:
